@@ -6,10 +6,12 @@ package main
 
 import (
 	"bufio"
+	"context"
 	"encoding/json"
 	"errors"
 	"flag"
 	"fmt"
+	"io"
 	"math"
 	"math/rand"
 	"os"
@@ -18,6 +20,7 @@ import (
 	"strings"
 	"time"
 
+	"github.com/pinealctx/neptune/cache"
 	"github.com/pinealctx/neptune/idgen/random"
 	"github.com/pinealctx/neptune/tex"
 	"github.com/pinealctx/neptune/vcode"
@@ -42,6 +45,39 @@ type fakeSMS struct {
 
 type gwPanic struct{}
 
+// every sentinel error either side knows (vcode's own, the packages it imports, the standard
+// library's and grpc's), plain and wrapped: each may come back from the gateway
+var gwErrors = map[string]error{
+	"vcode.ErrSendCountLimit":         vcode.ErrSendCountLimit,
+	"vcode.ErrVerifyCodeRetryLimit":   vcode.ErrVerifyCodeRetryLimit,
+	"vcode.ErrVerifyCodeNotExist":     vcode.ErrVerifyCodeNotExist,
+	"vcode.ErrVerifyCodeTimeout":      vcode.ErrVerifyCodeTimeout,
+	"vcode.ErrVerifyCodeNotMatch":     vcode.ErrVerifyCodeNotMatch,
+	"vcode.ErrVerifyCodeHashNotMatch": vcode.ErrVerifyCodeHashNotMatch,
+	"wrapped vcode.ErrSendTooFreq":    fmt.Errorf("gateway: %w", vcode.ErrSendTooFreq),
+	"cache.ErrTTLKeyNotFound":         cache.ErrTTLKeyNotFound,
+	"cache.ErrTTLKeyExists":           cache.ErrTTLKeyExists,
+	"tex.ErrInvalidDuration":          tex.ErrInvalidDuration,
+	"context.Canceled":                context.Canceled,
+	"context.DeadlineExceeded":        context.DeadlineExceeded,
+	"wrapped context.Canceled":        fmt.Errorf("send: %w", context.Canceled),
+	"io.EOF":                          io.EOF,
+	"io.ErrUnexpectedEOF":             io.ErrUnexpectedEOF,
+	"status Canceled":                 status.Error(codes.Canceled, "canceled"),
+	"status ResourceExhausted":        status.Error(codes.ResourceExhausted, "quota"),
+	"status DeadlineExceeded":         status.Error(codes.DeadlineExceeded, "deadline"),
+	"status NotFound empty":           status.Error(codes.NotFound, ""),
+}
+
+var gwKinds = func() []string {
+	ks := []string{"err", "status", "own", "panic"}
+	for k := range gwErrors {
+		ks = append(ks, k)
+	}
+	sort.Strings(ks)
+	return ks
+}()
+
 func (f *fakeSMS) SendCode(areaCode, phone, code string) error {
 	f.got = append(f.got, msg{areaCode, phone, code, strings.Clone(code)})
 	switch f.fail {
@@ -54,6 +90,11 @@ func (f *fakeSMS) SendCode(areaCode, phone, code string) error {
 	case "own":
 		f.failed = true
 		return vcode.ErrSendTooFreq
+	default:
+		if e, ok := gwErrors[f.fail]; ok {
+			f.failed = true
+			return e
+		}
 	case "panic":
 		f.failed = true
 		panic(gwPanic{})
@@ -129,8 +170,9 @@ var (
 	tinyOver = []time.Duration{0, 1, 100}
 	tinyGap  = []time.Duration{1, 100}
 	digits  = "0123456789"
-	phonesA = []string{"23", "3", "13800138000", "5550100", "007", "9", "4915112345678", "1234", "0"}
-	areasA  = []string{"1", "12", "86", "49", "", "001"}
+	phonesA = []string{"23", "3", "13800138000", "5550100", "007", "9", "4915112345678", "1234", "0", "",
+		strings.Repeat("7", 31), strings.Repeat("4", 32) + "1", strings.Repeat("90", 128), strings.Repeat("5", 257)}
+	areasA = []string{"1", "12", "86", "49", "", "001", "", strings.Repeat("1", 64)}
 )
 
 func pick(rng *rand.Rand, ds []time.Duration) time.Duration { return ds[rng.Intn(len(ds))] }
@@ -725,6 +767,9 @@ func runPlan(w *tr.W, rng *rand.Rand, name string, steps []planStep) {
 // ---------------------------------------------------------------- seeded histories
 func randRegime(rng *rand.Rand) regime {
 	lens := []int{0, 1, 1, 2, 3, 4, 4, 6, 6, 8, 12, 33, 100}
+	if rng.Intn(4) == 0 { // lengths around the powers of two (builder growth, hash blocks, byte widths)
+		lens = []int{7, 8, 9, 15, 16, 17, 31, 32, 33, 63, 64, 65, 127, 128, 129, 255, 256, 257}
+	}
 	g := regime{Mock: rng.Intn(2) == 0, Len: lens[rng.Intn(len(lens))], TTL: rng.Intn(4) != 0,
 		Gap: rng.Intn(3) != 0, Win: rng.Intn(2) == 0, MaxCount: rng.Intn(5), MaxVerify: rng.Intn(6),
 		extreme: true}
@@ -794,7 +839,7 @@ func runRandom(w *tr.W, rng *rand.Rand, nops int) {
 		if rng.Intn(100) < 35 {
 			gw := ""
 			if !g.Mock && gwLeft > 0 && rng.Intn(12) == 0 {
-				gw = []string{"err", "status", "own", "panic"}[rng.Intn(4)]
+				gw = gwKinds[rng.Intn(len(gwKinds))]
 				gwLeft--
 			}
 			in.sendVia(p, gw)
@@ -909,7 +954,17 @@ func runTwin(w *tr.W, rng *rand.Rand, nops int) {
 	cfg, raw, tiny := g.config(rng)
 	sms := &fakeSMS{}
 	a := newInstOn(w, rng, g, "twin-a", true, cfg, raw, tiny, sms)
-	b := newInstOn(w, rng, g, "twin-b", true, cfg, raw, tiny, sms)
+	var b *inst
+	if rng.Intn(2) == 0 {
+		b = newInstOn(w, rng, g, "twin-b", true, cfg, raw, tiny, sms)
+	} else {
+		// consecutive configurations in one process: another regime / code length / mode on the same
+		// pairs, call by call between the calls of the first (nothing of one may reach the other)
+		g2 := randRegime(rng)
+		g2.cache = g.cache
+		cfg2, raw2, tiny2 := g2.config(rng)
+		b = newInstOn(w, rng, g2, "twin-other-config", true, cfg2, raw2, tiny2, sms)
+	}
 	for i := 0; i < nops && !a.dead && !b.dead; i++ {
 		in := a
 		if rng.Intn(2) == 0 {
@@ -1040,6 +1095,64 @@ func runNoncePos(w *tr.W, fn, alpha string, length int) {
 	w.Emit(h.event("nonce", alpha))
 }
 
+// alternating: the generators called back to back with changing alphabets and lengths (nothing
+// computed for one call may serve the next), lengths around the powers of two, the degenerate ones
+// (length 0, alphabet of one character, empty alphabet with length 0); every output is logged.
+func runNonceAlternating(w *tr.W, rng *rand.Rand, rounds int) {
+	w.Emit(tr.E{"ev": "reset", "mock": false, "len": 0, "ttl": true, "gap": true, "win": false,
+		"maxCount": 0, "maxVerify": 0, "src": "nonce:alternating", "durations": tr.E{"none": true},
+		"late": false})
+	alphas := []string{digits, "ab", "x", "ACGT", "0123456789abcdef", "abcdefghij", "xy", "wxyz", "y",
+		"abcdefghijklmnopqrstuvwxyzABCDEFGHIJKLMNOPQRSTUVWXYZ0123456789"}
+	lens := []int{0, 1, 2, 6, 9, 10, 11, 31, 32, 33, 63, 64, 65, 255, 256, 257}
+	big := []int{1023, 1024, 1025, 4095, 4096, 4097}
+	// A, B, A with the same length and alphabets of the same size but no common character, then random
+	type call struct {
+		fn, alpha string
+		k         int
+	}
+	var calls []call
+	for _, fn := range []string{"sec", "plain"} {
+		for _, ab := range [][2]string{{digits, "abcdefghij"}, {"ab", "xy"}, {"ACGT", "wxyz"}, {"x", "y"}} {
+			for _, k := range []int{1, 6, 10, 32} {
+				calls = append(calls, call{fn, ab[0], k}, call{fn, ab[1], k}, call{fn, ab[0], k})
+			}
+		}
+	}
+	for i := 0; i < rounds; i++ {
+		c := call{"sec", alphas[rng.Intn(len(alphas))], lens[rng.Intn(len(lens))]}
+		if rng.Intn(2) == 0 {
+			c.fn = "plain"
+		}
+		if rng.Intn(25) == 0 {
+			c.k = big[rng.Intn(len(big))]
+		}
+		if rng.Intn(20) == 0 {
+			c.alpha, c.k = "", 0
+		}
+		calls = append(calls, c)
+	}
+	for _, c := range calls {
+		alpha, k, fn := c.alpha, c.k, c.fn
+		var out string
+		pan, _ := guard(func() {
+			if fn == "sec" {
+				out = random.SecGenNonceStr(alpha, k)
+			} else {
+				out = random.GenNonceStr(alpha, k)
+			}
+		})
+		if pan == "hang" {
+			out = ""
+		}
+		w.Emit(tr.E{"ev": "nonce", "fn": fn, "alpha": tr.Str(alpha), "n": k, "out": tr.Str(out),
+			"panic": pan != "", "msg": pan})
+		if pan != "" {
+			return
+		}
+	}
+}
+
 // direct samples of idgen/random's generators over several alphabets
 func runNonceSample(w *tr.W, rng *rand.Rand, fn, alpha string, n int) {
 	w.Emit(tr.E{"ev": "reset", "mock": false, "len": 0, "ttl": true, "gap": true, "win": false,
@@ -1138,12 +1251,16 @@ func main() {
 			}
 		}
 	}
-	lens := []int{1, 2, 6, 9, 10, 11, 12, 20, 21, 33, 40}
+	if !hung {
+		runNonceAlternating(sw, rng, map[bool]int{false: 300, true: 3000}[*full])
+	}
+	lens := []int{1, 2, 6, 9, 10, 11, 12, 20, 21, 32, 33, 40, 64}
 	if *full {
 		lens = lens[:0]
 		for l := 1; l <= 40; l++ {
 			lens = append(lens, l)
 		}
+		lens = append(lens, 63, 64, 65, 128, 257)
 	}
 	for _, l := range lens {
 		if !hung {
